@@ -64,6 +64,8 @@ type c09World struct {
 	slogH3  slog.Handler // a handler with three pending groups (its groups slice has spare capacity if built by append)
 	hookLog *zap.Logger  // terminal entries run a custom hook that inspects the entry it is handed
 	httpH   http.Handler
+	combined1   zapcore.WriteSyncer
+	combinedLog *zap.Logger
 	lockedBad  zapcore.WriteSyncer // a locked sink whose Sync always fails (stderr on a terminal does)
 	badSyncLog *zap.Logger
 	callerLog  *zap.Logger // AddCaller
@@ -90,12 +92,27 @@ type c09Discard struct{ n int }
 func (d *c09Discard) Write(p []byte) (int, error) { d.n += len(p); return len(p), nil } // unsynchronised on purpose: Lock must protect it
 func (d *c09Discard) Sync() error                 { d.n++; return nil }
 
+// c09ReadBatch: what a test does with the entries it took from the observer - it reads them, while the loggers
+// carry on. The batch is the caller's.
+func c09ReadBatch(es []observer.LoggedEntry) {
+	n := 0
+	for _, e := range es {
+		n += len(e.Message) + int(e.Level) + len(e.Context)
+		for _, f := range e.Context {
+			n += len(f.Key) + int(f.Integer)
+		}
+	}
+	_ = n
+}
+
 func c09NewWorld() *c09World {
 	w := &c09World{atom: zap.NewAtomicLevelAt(zapcore.InfoLevel)}
 	enc := func() zapcore.Encoder {
 		return zapcore.NewJSONEncoder(zapcore.EncoderConfig{MessageKey: "m", LevelKey: "l", TimeKey: "t", EncodeLevel: zapcore.LowercaseLevelEncoder, EncodeTime: zapcore.EpochNanosTimeEncoder})
 	}
 	w.locked = zapcore.Lock(&c09Discard{})
+	w.combined1 = zap.CombineWriteSyncers(&c09Discard{}) // a single destination, as zap.Open / Config.Build with one path make it
+	w.combinedLog = zap.New(zapcore.NewCore(enc(), w.combined1, w.atom))
 	base := zapcore.NewCore(enc(), w.locked, w.atom)
 	// the shared logger's own context holds a reflected value (its encoder has used a reflection buffer)
 	w.shared = zap.New(base).With(zap.Reflect("ctx", struct{ A, B int }{1, 2}))
@@ -185,7 +202,8 @@ var c09Concrete = map[string][]func(w *c09World, r *rand.Rand){
 	"observer.read": {
 		func(w *c09World, r *rand.Rand) { _ = w.obs.All() },
 		func(w *c09World, r *rand.Rand) { _ = w.obs.Len() },
-		func(w *c09World, r *rand.Rand) { _ = w.obs.TakeAll() },
+		func(w *c09World, r *rand.Rand) { c09ReadBatch(w.obs.TakeAll()) },
+		func(w *c09World, r *rand.Rand) { c09ReadBatch(w.obs.All()) },
 		func(w *c09World, r *rand.Rand) { _ = w.obs.FilterMessage("observed").FilterField(zap.Int("i", 1)).Len() },
 		func(w *c09World, r *rand.Rand) { _ = w.obs.FilterLevelExact(zapcore.InfoLevel).AllUntimed() },
 	},
@@ -196,6 +214,9 @@ var c09Concrete = map[string][]func(w *c09World, r *rand.Rand){
 	"locked.write": {
 		func(w *c09World, r *rand.Rand) { w.locked.Write([]byte("raw\n")) },
 		func(w *c09World, r *rand.Rand) { w.locked.Sync() },
+		func(w *c09World, r *rand.Rand) { w.combined1.Write([]byte("raw\n")) },
+		func(w *c09World, r *rand.Rand) { w.combinedLog.Error("through a single combined destination") },
+		func(w *c09World, r *rand.Rand) { w.combined1.Sync() },
 	},
 	"logger.log": {
 		func(w *c09World, r *rand.Rand) { w.shared.Info("shared", zap.Int("i", 1), zap.Reflect("r", map[string]int{"a": 1})) },
